@@ -165,6 +165,7 @@ func decorateNBSP(t *rapid.T, d *srtDoc) bool {
 
 func TestC01(t *testing.T) {
 	runWitnesses(t, "C01")
+	cliConvertCases(t, "C01", "srt")
 	rapidCheck(t, "C01/read", tier(4000, 400000), func(rt *rapid.T) {
 		c := c01ReadCase{Doc: genSRTDoc(rt, srtTextOpts), Rend: genSRTRendering(rt)}
 		if decorateNBSP(rt, &c.Doc) {
